@@ -10,7 +10,9 @@ N=${1:-20000}
 BIN=$(dirname "$(rustc +nightly --print target-libdir)")/bin
 export RUSTFLAGS="--cfg bytecodealliance_wit_bindgen_verif --cfg verif_coverage -C instrument-coverage --check-cfg=cfg(verif_coverage)"
 export CARGO_NET_OFFLINE=true
-rm -rf target/cov/prof; mkdir -p target/cov/prof
+rm -rf target/cov/prof target/cov/buildprof; mkdir -p target/cov/prof target/cov/buildprof
+# (instrumented build scripts and proc macros write profiles too: keep them out of the source trees)
+export LLVM_PROFILE_FILE="$PWD/target/cov/buildprof/%p-%m.profraw"
 cargo +nightly build -q -p simrt --features "itw,spawn,fstream" --target-dir target/cov/all
 cargo +nightly build -q -p simrt --target-dir target/cov/async
 cargo +nightly build -q -p simgen --target-dir target/cov/simgen
